@@ -86,7 +86,7 @@ SIG = "zkchannels-crypto/src/proofs/signature.rs"
 mutant("sigproof-drop-wellformed", SIG, "valid_signature && valid_commitment_proof && commitment_proof_matches_signature", "valid_commitment_proof && commitment_proof_matches_signature", [], why="reachable only with an identity blinded signature, which the decoder refuses: not observable through zkAbacus (C11, n/a)")
 mutant("sigproof-drop-pairing", SIG, "valid_signature && valid_commitment_proof && commitment_proof_matches_signature", "valid_signature && valid_commitment_proof", ["C02"])
 mutant("sigproof-drop-schnorr", SIG, "valid_signature && valid_commitment_proof && commitment_proof_matches_signature", "valid_signature && commitment_proof_matches_signature", ["C02"])
-mutant("sigproof-hash-drops-blinded-signature", SIG, "        builder.consume(&self.blinded_signature);\n        builder.consume(&self.commitment_proof_builder);", "        builder.consume(&self.commitment_proof_builder);", ["C12"], why="prover side only: builder/proof challenges differ -> also C04")
+mutant("sigproof-hash-drops-blinded-signature", SIG, "        builder.consume(&self.blinded_signature);\n        builder.consume(&self.commitment_proof_builder);", "        builder.consume(&self.commitment_proof_builder);", ["C12"], why="prover side only: the builder no longer hashes the blinded signature, the proof still does - prover and verifier disagree")
 RNG = "zkchannels-crypto/src/proofs/range.rs"
 mutant("range-drop-digit-verification", RNG, "valid_digits && response_scalar == expected_response_scalar", "response_scalar == expected_response_scalar", ["C02"])
 mutant("range-drop-link", RNG, "valid_digits && response_scalar == expected_response_scalar", "valid_digits", ["C02"])
@@ -138,7 +138,7 @@ revert("revert-fix-D5-amount-abs", "fix: PaymentAmount::to_scalar", ["C17"], "D5
 mutant("customer-complete-does-not-verify", CU, "        match close_state_signature.verify(config, &self.state.close_state()) {\n            // If so, save it and enter the `Inactive` state.", "        match Verified {\n            // If so, save it and enter the `Inactive` state.", ["C03"], why="Requested::complete accepts any closing signature")
 mutant("customer-lock-does-not-verify", CU, "        match close_state_signature.verify(config, &self.new_state.close_state()) {", "        match Verified {", ["C03"], why="Started::lock accepts any closing signature and reveals the old revocation pair")
 mutant("merchant-complete-payment-always-ok", "zkabacus-crypto/src/merchant.rs", "            Failed => Err(self),\n        }\n    }\n}", "            Failed => Ok(BlindedPayToken::sign(rng, self.config, self.blinded_state)),\n        }\n    }\n}", ["C05"], why="pay token issued whatever pair is presented")
-mutant("nonce-decode-rejects-short", NO, "        if n != CLOSE_SCALAR {", "        if n != CLOSE_SCALAR && n.to_bytes()[31] >= 4 {", ["C20"], why="restore refuses nonces below 2^250 (about 1 in 29 honest nonces): generation still produces them")
+mutant("nonce-decode-rejects-short", NO, "        if n != CLOSE_SCALAR {", "        if n != CLOSE_SCALAR && n.to_bytes()[31] >= 4 {", [], why="NEUTRAL (by accident of design): decoding refuses nonces below 2^250, but generation goes through the same validation and re-draws, so stored stages still restore: no check may raise an alarm")
 def both_sides_pay_context():
     full = os.path.join(WT, P); s = open(full).read()
     a = "            // integrate context\n            .with_bytes(context.as_bytes())\n"
